@@ -199,47 +199,86 @@ func variants(n, m, k int) []bvariant {
 
 var largeAlgos = []c14nAlgo{c14nAlgos[0], c14nAlgos[1]}
 
+// checkInvariant runs the canonicalisers on bg in its original form and in
+// every variant; the outputs must be byte-identical.
+func checkInvariant(r *rep, t *vlib.T, bg bgraph, vs []bvariant, algos []c14nAlgo) {
+	for _, algo := range algos {
+		var base string
+		if p := catch(func() {
+			out, err := algo.run(bg.statements(nil, nil, 0))
+			if err != nil {
+				r.Failf("%s on %s: %v", algo.name, bg.name, err)
+				return
+			}
+			base = renderStatements(out)
+		}); p != "" {
+			r.Failf("%s on %s panicked: %s", algo.name, bg.name, p)
+			continue
+		}
+		if base == "" {
+			continue
+		}
+		for vi, v := range vs {
+			var got string
+			if p := catch(func() {
+				out, err := algo.run(bg.statements(v.ord, v.lab, v.pool))
+				if err != nil {
+					r.Failf("%s: %v", algo.name, err)
+					return
+				}
+				got = renderStatements(out)
+			}); p != "" {
+				r.Failf("%s panicked on variant %d of %s: %s", algo.name, vi, bg.name, p)
+				break
+			}
+			t.Count("rdf_c14n_large_runs", 1)
+			if got != base {
+				r.Failf("%s is not invariant on %s %v: statement order %v with labels %v (pool %d) gives\n%sbut the original gives\n%s", algo.name, bg.name, bg.edges, v.ord, v.lab, v.pool, got, base)
+				break
+			}
+		}
+	}
+}
+
 func largeCase(g *vlib.G, bg bgraph, k int) {
 	g.Case(bg.name, func(t *vlib.T) {
 		r := newRep(t)
-		for _, algo := range largeAlgos {
-			var base string
-			if p := catch(func() {
-				out, err := algo.run(bg.statements(nil, nil, 0))
-				if err != nil {
-					r.Failf("%s on %s: %v", algo.name, bg.name, err)
-					return
+		checkInvariant(r, t, bg, variants(bg.n, len(bg.edges), k), largeAlgos)
+		t.Nontrivial()
+		t.Outcome(fmt.Sprintf("n=%d", bg.n))
+	})
+}
+
+// shuffles is the thin variant family: k LCG shuffles of statements and labels.
+func shuffles(n, m, k int) []bvariant {
+	var out []bvariant
+	for s := 0; s < k; s++ {
+		out = append(out, bvariant{lcgPerm(m, uint64(2*s+1)), lcgPerm(n, uint64(2*s+2)), s % 2})
+	}
+	return out
+}
+
+// treePlusEdgeCase: one rooted tree with every possible additional edge
+// from -> to (a node with two parents, a shortcut or a back edge). These are
+// the smallest shapes in which Hash N-Degree Quads permutes blank nodes that
+// are not automorphic while the issuer already holds five or more names.
+func treePlusEdgeCase(g *vlib.G, par []int, idx int, in bool, k int, algos []c14nAlgo) {
+	base := treeGraph(par, idx, in)
+	g.Case(base.name+" +edge", func(t *vlib.T) {
+		r := newRep(t)
+		n := len(par)
+		for from := 0; from < n && !r.Failed(); from++ {
+			for to := 0; to < n && !r.Failed(); to++ {
+				bg, ok := base.withExtraEdge(from, to)
+				if !ok {
+					continue
 				}
-				base = renderStatements(out)
-			}); p != "" {
-				r.Failf("%s on %s panicked: %s", algo.name, bg.name, p)
-				continue
-			}
-			if base == "" {
-				continue
-			}
-			for vi, v := range variants(bg.n, len(bg.edges), k) {
-				var got string
-				if p := catch(func() {
-					out, err := algo.run(bg.statements(v.ord, v.lab, v.pool))
-					if err != nil {
-						r.Failf("%s: %v", algo.name, err)
-						return
-					}
-					got = renderStatements(out)
-				}); p != "" {
-					r.Failf("%s panicked on variant %d: %s", algo.name, vi, p)
-					break
-				}
-				t.Count("rdf_c14n_large_runs", 1)
-				if got != base {
-					r.Failf("%s is not invariant on %s %v: statement order %v with labels %v (pool %d) gives\n%sbut the original gives\n%s", algo.name, bg.name, bg.edges, v.ord, v.lab, v.pool, got, base)
-					break
-				}
+				checkInvariant(r, t, bg, shuffles(n, len(bg.edges), k), algos)
+				t.Count("rdf_c14n_large_graphs", 1)
 			}
 		}
 		t.Nontrivial()
-		t.Outcome(fmt.Sprintf("n=%d", bg.n))
+		t.Outcome(fmt.Sprintf("n=%d+edge", n))
 	})
 }
 
@@ -249,14 +288,35 @@ func genRDFLarge(g *vlib.G) {
 	for n := 6; n <= maxTree; n++ {
 		for idx, par := range rootedTrees(n) {
 			for _, in := range []bool{false, true} {
-				tg := treeGraph(par, idx, in)
-				largeCase(g, tg, k)
+				largeCase(g, treeGraph(par, idx, in), k)
 			}
 		}
 	}
 	for n := 6; n <= 15; n++ {
 		for _, bg := range ringGraphs(n) {
 			largeCase(g, bg, k)
+		}
+	}
+	// trees with one more edge. quick: every out-tree on 10 nodes x every
+	// extra edge x 3 shuffles, URDNA2015 (URGNA2012 shares the code and is run
+	// on every fourth tree); thorough: n = 8..11, both orientations, both
+	// algorithms, 10 shuffles.
+	if !g.Thorough() {
+		for idx, par := range rootedTrees(10) {
+			algos := largeAlgos[:1]
+			if idx%4 == 0 {
+				algos = largeAlgos
+			}
+			treePlusEdgeCase(g, par, idx, false, 3, algos)
+		}
+		return
+	}
+	for n := 8; n <= 11; n++ {
+		for idx, par := range rootedTrees(n) {
+			treePlusEdgeCase(g, par, idx, false, 10, largeAlgos)
+			if n <= 10 {
+				treePlusEdgeCase(g, par, idx, true, 10, largeAlgos)
+			}
 		}
 	}
 }
